@@ -167,6 +167,7 @@ def worker(i, n):
             verdict = []
             for unit in sorted(set(u for u, _ in cover)):
                 try:
+                    vx._src_cache.clear()   # the source text has just been changed under the extractor
                     rs, st = vx.write_unit(unit, os.path.join(VERIF, "build"), canary=False)
                 except vx.LostAnchor as e:
                     verdict.append((unit, "undecided", "lost-anchor " + str(e)[:120]))
